@@ -22,6 +22,8 @@ var (
 	ErrNegativeValue = errors.New("negative coin value")
 	// ErrTooManyDecimals is returned if a value has more than 10 decimal places
 	ErrTooManyDecimals = errors.New("too many decimal places")
+	// ErrNotFinite is returned if a float value is NaN or infinite
+	ErrNotFinite = errors.New("value is not a finite number")
 	// ErrTooLarge is returned if a value is greater than math.MaxInt64
 	ErrTooLarge = errors.New("value is too large")
 
@@ -63,6 +65,10 @@ func init() {
 type Coin uint64
 
 func ParseZCN(c float64) (Coin, error) {
+	// decimal.NewFromFloat panics on NaN and infinities
+	if math.IsNaN(c) || math.IsInf(c, 0) {
+		return 0, ErrNotFinite
+	}
 	d := decimal.NewFromFloat(c)
 	if d.Sign() == -1 {
 		return 0, ErrNegativeValue
